@@ -384,6 +384,10 @@ def rule_T9(ctx, f):
                 r2 = peel(ex.term_local(0), transparent=[])
                 if isinstance(r2, tuple) and r2 and r2[0] == "agg" and r2[2].endswith("LocalHistogramTimer::LocalHistogramTimer"):
                     ok = C12.fresh_empty_local(ex, agg_field(r2, "local"))
+            if not ok and ty == "LocalHistogram" and is_call(r, ctor):
+                # the clone written out: a handle around one clone of self.core that is cleared exactly once, on every path, before the constructor gets it (what C12.L8 demands of Clone)
+                cl_ = b.calls_to(["LocalHistogram::clear", "LocalHistogramCore::clear"])
+                ok = C12.cleared_clone_of_self(b, peel(r[2][0])) and all(b.dominates(c_.bb, x.bb) for c_ in cl_ for x in b.calls_to(ctor))
             if not ok and isinstance(r, tuple) and r and r[0] == "agg" and strip_generics(str(r[2])).startswith(H + ctor.split("::")[0] + "::"):
                 # the constructor expanded in place: the aggregate itself holds self.clone()
                 tg = agg_field(r, "histogram" if ty == "Histogram" else "local")
